@@ -61,26 +61,15 @@ impl LogicalLinesReconstructor for DelphiLogicalLinesReconstructor {
         formatted_tokens
             .tokens()
             .for_each(|(token, formatting_data)| {
-                let is_eof = matches!(token.get_token_type(), TokenType::Eof);
+                if must_break && Self::lacks_line_break((token, formatting_data)) {
+                    log::warn!("{}", MISSING_LINE_BREAK_WARN);
+                    buf.push_str(self.reconstruction_settings.get_newline_str());
+                }
 
                 if formatting_data.is_ignored() {
-                    // A line comment also ends at a lone carriage return.
-                    if must_break
-                        && !token.get_leading_whitespace().contains(['\n', '\r'])
-                        && !is_eof
-                    {
-                        log::warn!("{}", MISSING_LINE_BREAK_WARN);
-                        buf.push_str(self.reconstruction_settings.get_newline_str());
-                    };
                     buf.push_str(token.get_leading_whitespace());
                 } else {
-                    let nls = if must_break && formatting_data.newlines_before == 0 && !is_eof {
-                        log::warn!("{}", MISSING_LINE_BREAK_WARN);
-                        1
-                    } else {
-                        formatting_data.newlines_before
-                    };
-                    (0..nls)
+                    (0..formatting_data.newlines_before)
                         .for_each(|_| buf.push_str(self.reconstruction_settings.get_newline_str()));
                     (0..formatting_data.indentations_before).for_each(|_| {
                         buf.push_str(self.reconstruction_settings.get_indentation_str())
@@ -206,6 +195,19 @@ struct NonBreakingWs {
 }
 
 impl DelphiLogicalLinesReconstructor {
+    /// Whether a line break has to be added in front of this token when it follows a single-line
+    /// comment: it has none of its own and is not the end of the file.
+    fn lacks_line_break(token: (&Token, &FormattingData)) -> bool {
+        if matches!(token.0.get_token_type(), TokenType::Eof) {
+            false
+        } else if token.1.is_ignored() {
+            // A line comment also ends at a lone carriage return.
+            !token.0.get_leading_whitespace().contains(['\n', '\r'])
+        } else {
+            token.1.newlines_before == 0
+        }
+    }
+
     fn ws_len(&self, token: (&Token, &FormattingData)) -> usize {
         if token.1.is_ignored() {
             token.0.get_leading_whitespace().len()
@@ -276,12 +278,19 @@ impl DelphiLogicalLinesReconstructor {
 
     fn offset_for_token(&self, formatted_tokens: &FormattedTokens, token_idx: usize) -> usize {
         let mut pos = 0;
+        let mut must_break = false;
         for (idx, token) in formatted_tokens.tokens().enumerate() {
+            // the line break that `reconstruct` adds after a single-line comment
+            if must_break && Self::lacks_line_break(token) {
+                pos += self.nl_len();
+            }
             pos += self.ws_len(token);
             if idx >= token_idx {
                 break;
             }
             pos += token.0.get_content().len();
+            must_break =
+                matches!(token.0.get_token_type(), TokenType::Comment(ck) if ck.is_singleline());
         }
         pos
     }
